@@ -3,6 +3,7 @@ package replay
 import (
 	"bytes"
 	"fmt"
+	"github.com/ipfs/go-cid"
 
 	"github.com/ipld/go-ipld-prime/codec/dagcbor"
 	"github.com/ipld/go-ipld-prime/codec/dagjson"
@@ -318,7 +319,12 @@ func ReplayImmutable(cs *ImCase) (*run.Finding, int) {
 				g.Keys[0] = "q"
 				g.Keys = append(g.Keys, "y")
 			case "store-load":
-				lnk, err := ls.Store(linking.LinkContext{}, linkProto, src.n)
+				lp := linkProto
+				if src.n.Kind() == datamodel.Kind_Bytes {
+					// bytes travel as a RAW block (codec 0x55), whose decoder hands out what it was given
+					lp = cidlink.LinkPrototype{Prefix: cid.Prefix{Version: 1, Codec: 0x55, MhType: 0x12, MhLength: -1}}
+				}
+				lnk, err := ls.Store(linking.LinkContext{}, lp, src.n)
 				if err != nil {
 					operr = err
 					return
